@@ -14,9 +14,9 @@ theorem toI64_succ_ne (g : Int) : toI64 (g + 1) ≠ g := by
   unfold toI64; omega
 
 section
-variable {L A M S T : Type} [DecidableEq S] [DecidableEq A]
+variable {L A M S T A' S' : Type} [DecidableEq S'] [DecidableEq A']
 
-omit [DecidableEq S] [DecidableEq A] in
+omit [DecidableEq S'] [DecidableEq A'] in
 /-- What an accepted `beforeCreate` returned. -/
 theorem beforeCreate_ok {r : Reg} {mr : MetaRules L A M S T} {zero : T} {o o' : Obj L A M S T}
     (h : beforeCreate r mr zero o = .ok o') :
@@ -36,11 +36,11 @@ theorem beforeCreate_ok {r : Reg} {mr : MetaRules L A M S T} {zero : T} {o o' : 
         exact ⟨by simpa using hm, h.symm⟩
 
 /-- What an accepted `beforeUpdate` returned, and the checks it passed. -/
-theorem beforeUpdate_ok {r : Reg} {ep : Endpoint} {mr : MetaRules L A M S T} {obj old o' : Obj L A M S T}
-    (h : beforeUpdate r ep mr obj old = .ok o') :
+theorem beforeUpdate_ok {sem : Sem A S A' S'} {r : Reg} {ep : Endpoint} {mr : MetaRules L A M S T}
+    {obj old o' : Obj L A M S T} (h : beforeUpdate sem r ep mr obj old = .ok o') :
     (ep = .status → r.served = true) ∧ r.shape.hasMeta = true ∧
-    o' = { updatePrepare r ep { obj with generation := old.generation } old with
-            otherMeta := mr.fixUpdate (updatePrepare r ep { obj with generation := old.generation } old).otherMeta old.otherMeta } ∧
+    o' = { updatePrepare sem r ep { obj with generation := old.generation } old with
+            otherMeta := mr.fixUpdate (updatePrepare sem r ep { obj with generation := old.generation } old).otherMeta old.otherMeta } ∧
     ¬ o'.generation < 0 ∧ ¬ o'.generation < old.generation := by
   unfold beforeUpdate at h
   split at h
